@@ -164,6 +164,25 @@ static void build_table()
 				add("Interpolation_2D::Interpolate(x)", l, s, [=]() { Interpolation_2D I(x, V{0, 1, 2}, VV(4, V(3, 1.0))); return I(q, 1.0); });
 				add("Interpolation_2D::Interpolate(y)", l, s, [=]() { Interpolation_2D I(V{0, 1, 2}, x, VV(3, V(4, 1.0))); return I(1.0, q); });
 			}
+	// two-argument requests with both arguments in one extrapolation zone, at one end knot, or one in each zone: all meaningful
+	for(Tab tb : {Tab{"uniform", V{0, 1, 2, 3}}, Tab{"short_left_edge", V{10, 10.001, 11, 15}}, Tab{"short_right_edge", V{-5, -3, -2.5, -2.4999}}})
+	{
+		int n = tb.x.size();
+		double hl = tb.x[1] - tb.x[0], hr = tb.x[n - 1] - tb.x[n - 2], x0 = tb.x[0], xn = tb.x[n - 1];
+		struct Pair { const char* name; double a, b; };
+		for(Pair pr : {Pair{"both_in_right_zone", xn + 0.002 * hr, xn + 0.008 * hr}, Pair{"both_in_left_zone", x0 - 0.008 * hl, x0 - 0.002 * hl}, Pair{"last_knot_to_right_zone", xn, xn + 0.009 * hr},
+					   Pair{"left_zone_to_first_knot", x0 - 0.009 * hl, x0}, Pair{"left_zone_to_right_zone", x0 - 0.005 * hl, xn + 0.005 * hr}, Pair{"both_at_last_knot", xn, xn}, Pair{"both_at_first_knot", x0, x0}})
+		{
+			V x = tb.x, y{1, 3, 2, 5};
+			double a = pr.a, b = pr.b;
+			std::string l = std::string(tb.name) + "," + pr.name;
+			add("Interpolation::Integrate", l, ACCEPT, [=]() { Interpolation I(x, y); return I.Integrate(a, b); });
+			add("Interpolation::Integrate(reversed)", l, ACCEPT, [=]() { Interpolation I(x, y); return I.Integrate(b, a); });
+			add("Interpolation::Local_Minimum", l, ACCEPT, [=]() { Interpolation I(x, y); return I.Local_Minimum(a, b); });
+			add("Interpolation::Local_Maximum", l, ACCEPT, [=]() { Interpolation I(x, y); return I.Local_Maximum(a, b); });
+			add("Interpolation::Local_Maximum(negative prefactor)", l, ACCEPT, [=]() { Interpolation I(x, y); I.Multiply(-2.0); return I.Local_Maximum(a, b) + I.Local_Minimum(a, b); });
+		}
+	}
 	// the same domain test on a table given in other units (x_dim): the tolerance is 1 % of the edge interval of the converted abscissae
 	for(double xd : {1e-3, 1e3, 7.0})
 		for(int end = 0; end < 2; end++)
